@@ -31,6 +31,10 @@ func findOutputDepsReg(ins *instruction, regs keyInsMap) {
 
 		// We are certain that i != ins.
 		addDep(ins, dep)
+
+		// From now on, ins is the closest following writer of r for
+		// all instructions preceding it.
+		regs[r] = ins
 	}
 }
 
